@@ -31,6 +31,9 @@ func histSpec(id string, prof *Profile, rule string, nt func(res *Result) bool) 
 				// block after block of simultaneous requests on one entity / component / action
 				return duel(seed, simrt.NewRand(seed, "duel"), prof, id)
 			}
+			if (id == "C14" || id == "C05") && seed%25 == 4 {
+				return longLived(seed, prof, id)
+			}
 			if id == "C13" && seed%10 < 3 {
 				return subChurn(seed, prof)
 			}
@@ -73,7 +76,13 @@ func trig(res *Result, keys ...string) bool {
 }
 
 func init() {
-	props["C14"] = histSpec("C14", histProfile("C14", map[string]int{"custom": 40}, func(p *Profile) { p.MinMembers = 3 }),
+	props["C14"] = histSpec("C14", histProfile("C14", map[string]int{"custom": 40}, func(p *Profile) {
+		p.MinMembers = 3
+		// (targeted messages of several senders at the same instant: outside the statement's
+		// quantifier, cheap to include)
+		p.PBlock = 0.05
+		p.BlockOps = []string{"custom", "custom", "custom", "comp_update", "joiner", "close"}
+	}),
 		"distinct run digests in which at least one custom message was accepted", func(r *Result) bool { return trig(r, "op:custom") })
 	props["C01"] = histSpec("C01", histProfile("C01", nil, func(p *Profile) { p.PBlock = 0.08; p.PFocus = 0.4; p.PProbe = 0.1; p.PEndgame = 0.1 }),
 		"distinct run digests with an accepted state change and at least one probe/late joiner", func(r *Result) bool { return trig(r, "op:join") })
@@ -123,7 +132,17 @@ func init() {
 		p.BlockOps = []string{"unsubscribe", "unsubscribe", "comp_update", "comp_update", "comp_update", "subscribe", "comp_add", "comp_delete", "close"}
 	}),
 		"distinct run digests with a subscription and a component change", func(r *Result) bool { return trig(r, "op:subscribe") && trig(r, "op:comp_add", "op:comp_update") })
-	props["C16"] = histSpec("C16", histProfile("C16", map[string]int{"action": 22, "asset_add": 16, "entity_add": 12, "entity_delete": 8}, func(p *Profile) { p.AllModules = true; p.MinMembers = 2; p.PProbe = 0.1; p.PClose = 0.06 }),
+	props["C16"] = histSpec("C16", histProfile("C16", map[string]int{"action": 22, "asset_add": 16, "entity_add": 12, "entity_delete": 8}, func(p *Profile) {
+		p.AllModules = true
+		p.MinMembers = 2
+		p.PProbe = 0.1
+		p.PClose = 0.06
+		// (actions and assets meeting deletions and departures in the same instant: outside
+		// the statement's quantifier, cheap to include)
+		p.PBlock = 0.05
+		p.PFocus = 0.7
+		p.BlockOps = []string{"action", "action", "asset_add", "entity_delete", "close", "joiner"}
+	}),
 		"distinct run digests with an accepted action or asset", func(r *Result) bool { return trig(r, "op:action", "op:asset_add") })
 	props["C11"] = histSpec("C11", histProfile("C11", map[string]int{"pose": 30, "entity_add": 12, "entity_delete": 6, "switch": 4}, func(p *Profile) {
 		p.MinMembers = 2
